@@ -88,7 +88,10 @@ func famRepro(tr *Trace, scratch string, seed int64, tier string, nfpmBin string
 				}
 			}
 			os.RemoveAll(pc.Root)
-			if ok || try > 50 {
+			if i == 3 && pc.Cfg.NoGlob { // case 3 gets glob entries below: it needs a tree whose names are not glob syntax
+				ok = false
+			}
+			if ok || try > 200 {
 				break
 			}
 		}
